@@ -383,6 +383,15 @@ def run(tier, seed):
     vlib.binding_selftest(o, FAMILY, "SigAggTrace", trace_cfg, tr, ms)
     if len(o.selftests) < 2 + len(ms) and not o.violations:
         raise vlib.Infra("binding self-test: some negative control found no applicable trace")
+    # the same rule on REAL, fully wired nodes (specs/Workflow, harness/workflow): clusters of real app.Run nodes in which
+    # invalid partial signatures reach the aggregator (a Byzantine member behind an exchange that does not verify, as
+    # core/parsigex/memory.go behaves) - whatever a node stores as aggregate, broadcasts or submits to its beacon node must
+    # verify under the group key; only that guard (GroupValid) may raise an alarm here
+    if not o.violations:
+        import grow_workflow
+        grow_workflow.light_stage(o, seed, only={"GroupValid"},
+                                  pick=lambda p: p.get("byz") is not None and p.get("mode") == "mem",
+                                  controls=("invalid aggregate stored", "invalid aggregate broadcast"))
     return vlib.finish(o, "exploration", RULE, ASSUMPTIONS)
 
 
